@@ -85,6 +85,9 @@ func cmdFunc(args []string) int {
 	fs := flag.NewFlagSet("func", flag.ExitOnError)
 	timeout := fs.Int("timeout", 10, "solver timeout (s)")
 	verbose := fs.Bool("v", false, "verbose")
+	only := fs.String("only", "", "solve only obligations whose name contains this text")
+	list := fs.Bool("list", false, "generate and list the obligations, do not solve")
+	par := fs.Int("par", 5, "obligations solved in parallel")
 	fs.Parse(args)
 	p, err := LoadProgram(repoDir())
 	if err != nil {
@@ -112,7 +115,18 @@ func cmdFunc(args []string) int {
 			}
 			t0 := time.Now()
 			frs := VerifyFunc(p, con)
-			solveAll(frs, *timeout, false, 5)
+			fmt.Fprintf(os.Stderr, "generated in %.1fs\n", time.Since(t0).Seconds())
+			for _, fr := range frs {
+				for _, o := range fr.Obls {
+					if *list || (*only != "" && !strings.Contains(o.Name, *only)) {
+						o.Status = "skipped"
+					}
+					if *list {
+						fmt.Printf("  %-70s %s\n", o.Name, o.Text)
+					}
+				}
+			}
+			solveAll(frs, *timeout, false, *par)
 			for _, fr := range frs {
 				if fr.Err != nil {
 					fmt.Printf("%s [%s]: UNDECIDED: %v\n", key, fr.Variant, fr.Err)
@@ -121,6 +135,9 @@ func cmdFunc(args []string) int {
 				}
 				ok, bad := 0, 0
 				for _, o := range fr.Obls {
+					if o.Status == "skipped" {
+						continue
+					}
 					good := o.Status == "unsat"
 					if o.ExpectSat {
 						good = (o.Status != "unsat" || o.UnreachableOK) && o.Status != "error"
